@@ -10,13 +10,22 @@ E3 configuration explorer.  Four kinds of cells, all enumerated completely insid
                vector, list, callable} x square-root factor kinds {symmetric, upper-triangular} x point alphabet
                {0, mean, basis, generic points}.  All forms of a cell denote one and the same N(mean, Sigma); each
                is compared with the explicit -(k/2)log 2pi - 1/2 logdet - 1/2 r^T Sigma^-1 r, hence pairwise.
+               Two further facets: ``scale`` - the same cells with the target covariance multiplied by 2^-30 and 2^20
+               (every datum is the correspondingly scaled one, the points are the same in the coordinates
+               standardised by the scale; reference = dense slogdet/solve on the scaled matrix; a non-finite logpdf
+               is a verdict of its own, ``logpdf-finite``); ``int`` target - integer-valued data of every
+               parameterisation (scalar, vector, diagonal, dense symmetric, dense triangular factor, sparse) given
+               as float64 / integer dtype / nested lists of python ints / python int scalar, crossed with the mean
+               given as python int / integer array / list of ints (and float controls) and integer-typed points.
 * ``fam``    : one cell per (family x parameter set) for Normal, Laplace, SmoothedLaplace, Cauchy, Gamma,
                InverseGamma, Beta, Uniform, Lognormal, ModifiedHalfNormal; inside: dims {1,2,3,2x2} x passing forms
                (scalar broadcast over int / Image2D / tuple geometries, arrays, lists, mixed scalar/vector, callable
                and None conditioned later) x points inside and outside the support x {logpdf, pdf, logd, cdf};
-               for dim 1 quadrature of the density and of cdf increments.
+               for dim 1 quadrature of the density and of cdf increments.  One more parameter set per family is
+               integer-valued and adds the facet representation {float64, integer dtype / python ints}.
 * ``mrf``    : one cell per (GMRF / LMRF / CMRF x physical dim x N); inside: (bc, order) x geometry kinds x
-               location forms x hyper-parameter forms x {0, basis, generic points}.
+               location forms (incl. python int, integer array) x hyper-parameter forms (incl. python int,
+               integer array) x {0, basis, generic points}.
 * ``user``   : UserDefinedDistribution / gallery BivariateGaussian.
 
 Signatures name only those facets that discriminate failing from passing configurations inside a cell.
@@ -28,24 +37,40 @@ from vfw.core import CellResult, close
 from vfw import refs
 
 PROPERTY = "C04"
-RULE = ("cells = {gauss: target x parameterisation x dim} + {fam: family x parameter set} + {mrf: family x "
-        "physical dim x N} + {user}; every cell enumerates the full inner product (data shapes x both sides of "
-        "the dense/sparse switch x passing forms x mean/location forms x factor kinds | dims x passing forms | "
-        "bc x order x geometry x location x hyper-parameter forms) x the whole point alphabet and compares "
-        "logpdf/pdf/cdf/logd with explicit reference formulas (plus quadrature in 1-D); each inner configuration "
-        "is a state; a cell is non-trivial when at least one configuration was constructed and compared")
+RULE = ("cells = {gauss: target x parameterisation x dim x overall scale of the covariance} + {gauss-int: "
+        "integer-valued datum x parameterisation x dim} + {fam: family x parameter set (incl. one integer-valued "
+        "set)} + {mrf: family x physical dim x N} + {user}; every cell enumerates the full inner product (data "
+        "shapes x both sides of the dense/sparse switch x passing forms x mean/location forms x factor kinds "
+        "[x representation of datum {float64, integer} x representation of mean {float, integer}] | dims x "
+        "passing forms [x representation] | bc x order x geometry x location x hyper-parameter forms) x the whole "
+        "point alphabet and compares logpdf/pdf/cdf/logd with explicit reference formulas (dense numpy slogdet / "
+        "solve on the scaled matrix; plus quadrature in 1-D); each inner configuration is a state; a cell is "
+        "non-trivial when at least one configuration was constructed and compared")
 BOUND = {
     "quick": "one value catalogue (seed mod 3). Gaussian: 4 targets x 4 parameterisations x dims {1,2,3,75,76} x "
              "<=5 data shapes (3 sparse formats) x {dense,sparse path} x <=4 passing forms x 5 mean forms x <=2 "
              "factor kinds; points = 0, mean, basis (complete for dim<=3, 4 vectors for dim>=75), 2 generic. "
-             "10 univariate/iid families x 3-4 parameter sets x dims {1,2,3,2x2} x <=9 passing forms x (5+2dim "
+             "Scale facet: covariance x {2^-30, 2^20} for all 4 targets x 4 parameterisations at dims {1,2,76}, "
+             "all data shapes / paths / passing forms / factor kinds, mean forms {0, vector}, points standardised "
+             "by the scale, no quadrature. Integer facet: 4 parameterisations x dims {1,2} x 6 data shapes "
+             "(scalar, vector, diagonal, dense symmetric / triangular, sparse csr diagonal / full) x {float64, "
+             "int64 / python int} x paths x passing forms (array, nested list, callable, None) x mean forms "
+             "{int scalar, float / int vector, int list} + integer-typed points (array, list). "
+             "10 univariate/iid families x (3-4 parameter sets + 1 integer-valued set x {float, integer "
+             "representation}) x dims {1,2,3,2x2} x <=9 passing forms x (5+2dim "
              "inside + <=2dim outside) points; 1-D quadrature to 1e-7. MRFs 1-D N=2..6, 2-D N=2..3, (bc=zero, "
-             "order 0..2) + (order 1, neumann/periodic) x 5 location x <=3 hyper-parameter forms",
+             "order 0..2) + (order 1, neumann/periodic) x 7 location forms (5 + python int + integer array) x "
+             "<=4 hyper-parameter forms (float, 1-array, callable, python int)",
     "thorough": "all 3 value catalogues; Gaussian dims {1,2,3,4,5,74,75,76,77} with the complete basis and 4 "
-                "generic points; MRFs 1-D N=2..10, 2-D N=2..4; otherwise as quick",
+                "generic points; scale facet at dims {1,2,3,4,5,75,76} with all 5 mean forms; integer facet at "
+                "dims {1,2,3,4,76} with all 6 mean forms (scalar/vector/list x float/int); MRFs 1-D N=2..10, "
+                "2-D N=2..4 and the integer 1-array hyper-parameter form for GMRF; otherwise as quick",
 }
 ASSUMPTIONS = [
     "values outside the dyadic catalogues (3 catalogues) and dimensions outside the listed ones are not covered",
+    "overall scales other than 2^-30, 1, 2^20 are not covered; the scale facet is applied to the Gaussian covariance "
+    "only (not to the iid families / MRFs); representations other than float64, int64 and python int/float (e.g. "
+    "float32, int32, bool) are not covered; integer-valued parameters are small integers (|v| <= 8)",
     "multi-dimensional normalisation is decided by the reference formula only; quadrature is used for dim 1",
     "an exception is always accepted as a refusal (e.g. sparse non-diagonal matrices without cholmod, list-valued "
     "parameters of Normal/Uniform, Gaussian.cdf with a broadcast scalar mean); where logpdf is refused the "
@@ -173,16 +198,6 @@ MRF_COMBOS = [("zero", 0), ("zero", 1), ("zero", 2), ("neumann", 1), ("periodic"
 
 
 def cells(tier, seed):
-    import os
-    for c in _cells(tier, seed):
-        if os.environ.get("C04_BASELINE") and (c.get("scale") or c.get("target") == "int" or c.get("pset") == "int"):
-            continue
-        if os.environ.get("C04_BASELINE") and c.get("kind") == "mrf":
-            c["intforms"] = "none"
-        yield c
-
-
-def _cells(tier, seed):
     thorough = tier != "quick"
     k0 = refs.cat(seed)
     cats = [k0] + ([c for c in range(refs.K_CATALOGUES) if c != k0] if thorough else [])
@@ -1162,8 +1177,6 @@ def _eval_mrf(cell, res):
     if fam == "GMRF" and cell.get("intforms") == "all":
         hyp_forms.append("int-array1")
     pts = [np.zeros(dim)] + [np.eye(dim)[:, i] for i in range(dim)] + [refs.dyadic_vec(dim, k), refs.dyadic_vec(dim, k + 3)]
-    if cell.get("intforms") == "none":
-        loc_forms, hyp_forms = loc_forms[:5], [h for h in hyp_forms if not h.startswith("int")]
     cls = getattr(cuqi.distribution, fam)
     locname = "mean" if fam == "GMRF" else "location"
     hypname = "prec" if fam == "GMRF" else "scale"
